@@ -168,6 +168,12 @@ def run(ctx):
             ctx.count("ties")
             if t["lt"] and t["gt"]:
                 ctx.violation("C12:both-less-and-greater", f"{a!r} vs {b!r}: {t}", case)
+            # inside the tie band rounding decides WHICH of < == > holds, but what == says binds the others in the same
+            # argument order: equal is neither less nor greater, and <= is < or ==
+            for eq_, lt_, gt_, le_, ge_ in (("eq", "lt", "gt", "le", "ge"), ("req", "rlt", "rgt", "rle", "rge")):
+                if (t[eq_] and (t[lt_] or t[gt_])) or t[le_] != (t[lt_] or t[eq_]) or t[ge_] != (t[gt_] or t[eq_]):
+                    ctx.violation("C12:operators-contradict-each-other-at-a-tie", f"{a!r} vs {b!r}: {({k: t[k] for k in (eq_, lt_, gt_, le_, ge_)})}", case)
+                    break
         else:
             ctx.count("away_from_ties")
             want = {"eq": False, "ne": True, "lt": o < 0, "le": o < 0, "gt": o > 0, "ge": o > 0}
